@@ -382,6 +382,15 @@ def get_strategy_base():
         def on_open_position(self, order):
             self._enter_hook('open')
             pr = self._prog
+            if pr.get('p_hook_market', 0.0) > 0 and not pr.get('inert') and self._uu('open', 'hm', 1.0) < pr['p_hook_market']:
+                # a plain market order submitted in reaction to the opening fill (scale out a part at once)
+                q = self._round_qty(abs(float(self.position.qty)) * 0.3)
+                if q > 0:
+                    if self.position.type == 'long':
+                        self.broker.sell_at_market(q)
+                    else:
+                        self.broker.buy_at_market(q)
+                    self._c.count('hook_market_orders')
             if self.exchange_type == 'spot' or not pr['exit_in_go']:
                 if self._uu('open', 'set_exits', 0.0) < pr['p_exits_on_open']:
                     self._declare_exits('open')
@@ -606,6 +615,7 @@ def gen_program(st, exchange_type, profile=None):
         'dna': None,
         'raise_at': None,
         'p_withdraw': st.choice([0.0, 0.0, 0.02], 'p_withdraw'),
+        'p_hook_market': st.choice([0.0, 0.0, 0.3], 'p_hook_market'),
         'ohlc_entries': st.chance(0.3, 'ohlc'),
         'data_gate': st.chance(0.3, 'dgate'),
     }
